@@ -449,12 +449,12 @@ def run(ctx):
     ctx.rule("R-8.4", "restart refuses an incomplete tree (setup_config checks every active path; load_path asserts files)", floor=2)
     ctx.rule("R-8.5", "durable effects before the commit are idempotent under re-execution or reconciled at restart", floor=2)
     ctx.rule("R-8.6", "every job issuer appends the job it hands out to the in-flight record exactly once", floor=3)
-    r81(ctx)
-    r82(ctx)
-    r83(ctx)
-    r84(ctx)
-    r85(ctx)
-    r86(ctx)
+    ctx.attempt(r81, ctx)
+    ctx.attempt(r82, ctx)
+    ctx.attempt(r83, ctx)
+    ctx.attempt(r84, ctx)
+    ctx.attempt(r85, ctx)
+    ctx.attempt(r86, ctx)
 
 
 VARIANTS = [
